@@ -16,7 +16,7 @@
 (* closed form.                                                               *)
 (* Geometries and layouts are records passed as arguments so that one module  *)
 (* serves the model check and the validation of many recorded configurations. *)
-EXTENDS Integers, Sequences, FiniteSets, TLC
+EXTENDS Integers, Sequences, FiniteSets, TLC, Functions
 
 \* ------------------------------------------------------------------ geometry
 \* g = [minSeg, maxSeg, ax (<<minAx,maxAx>> per segment, in segment order), minView, maxView,
@@ -198,4 +198,62 @@ StreamFillFromSegs(g, L, f, todo, vals) ==
            start == Pos(g, StdLayout(g), << s, MinAx(g, s), g.minView, g.minTang, k >>) IN
        StreamFillFromSegs(g, L, StreamSetSegS(g, L, f, s, k, Slice(vals, start + 1, NA(g, s) * NV(g) * NT(g))), Tail(todo), vals)
 StreamFillFrom(g, L, f, vals) == StreamFillFromSegs(g, L, f, StdSegTofs(g), vals)
+
+\* ================================================================== round 2: more actions on the SAME state
+\* ------------------------------------------------------------------ arithmetic and bulk operations on `store'
+\* These serve the first sentence of the property ("projection data behave as a single array ...: a value written
+\* through any access path ... is read back unchanged through every other path and no other bin changes, whatever the
+\* storage order, segment order in the stream, on-disk number type, byte order or backing store"): the element-wise
+\* operations are bulk write paths whose result must be the element-wise result on the ARRAY, bin by bin, independent
+\* of the layout of either operand; the reductions are bulk read paths.  (The arithmetic identities themselves, e.g.
+\* what xapyb means, are taken from the member documentation: "set values of the array to x*a+y*b".)
+Xapyb(x, a, y, b) == [c \in DOMAIN x |-> x[c] * a + y[c] * b]                 \* xapyb(x,a,y,b), a and b scalars
+XapybV(x, av, y, bv) == [c \in DOMAIN x |-> x[c] * av[c] + y[c] * bv[c]]      \* a and b projection data
+AddPD(st, y) == [c \in DOMAIN st |-> st[c] + y[c]]
+SubPD(st, y) == [c \in DOMAIN st |-> st[c] - y[c]]
+MulPD(st, y) == [c \in DOMAIN st |-> st[c] * y[c]]
+DivisibleBy(st, y) == \A c \in DOMAIN st : y[c] # 0 /\ st[c] % y[c] = 0
+DivPD(st, y) == [c \in DOMAIN st |-> st[c] \div y[c]]                          \* only used where DivisibleBy holds (exact quotients)
+Const(st, v) == [c \in DOMAIN st |-> v]
+\* reductions ("return sum of all elements", "maximum value of all elements", "L2-norm squared (sum of squares)")
+SumOf(st) == FoldFunction(LAMBDA v, acc : v + acc, 0, st)
+AbsV(v) == IF v < 0 THEN -v ELSE v
+SumAbsOf(st) == FoldFunction(LAMBDA v, acc : AbsV(v) + acc, 0, st)
+MaxOf(st) == LET c0 == CHOOSE c \in DOMAIN st : TRUE IN FoldFunction(LAMBDA v, acc : IF v > acc THEN v ELSE acc, st[c0], st)
+MinOf(st) == LET c0 == CHOOSE c \in DOMAIN st : TRUE IN FoldFunction(LAMBDA v, acc : IF v < acc THEN v ELSE acc, st[c0], st)
+MaxAbsOf(st) == FoldFunction(LAMBDA v, acc : IF AbsV(v) > acc THEN AbsV(v) ELSE acc, 0, st)
+SumSqOf(st) == FoldFunction(LAMBDA v, acc : v * v + acc, 0, st)
+\* sum() accumulates in single precision: relative error bound n * 2^-24 <= 2^-15 for n <= 512 elements; the tolerance
+\* is taken with a factor 2 margin on the sum of absolute values (+1 for the rounding of the recorded number)
+SumTol(st) == 1 + SumAbsOf(st) \div 16384
+\* sums of squares are compared exactly, but only where they fit TLC's 32-bit integers
+SmallEnoughForSquares(st, n) == MaxAbsOf(st) <= 2000 /\ n <= 500
+
+\* fill(ProjData) from a source with another segment range: "The current check requires at least the same segment
+\* numbers (but the source can have more), all other geometric parameters have to be the same."  gs = source geometry,
+\* vals = source data in ITS standard order.
+SourceCovers(g, gs) == /\ gs.minSeg <= g.minSeg /\ g.maxSeg <= gs.maxSeg
+                       /\ \A s \in Segs(g) : MinAx(gs, s) = MinAx(g, s) /\ MaxAx(gs, s) = MaxAx(g, s)
+FilledFromSource(g, gs, vals) == LET ls == StdLayout(gs) IN [c \in Bins(g) |-> vals[Pos(gs, ls, c) + 1]]
+
+\* get_subset(views): "construct projection data that stores a subset of the views": view i of the result is view
+\* views[i+1] of the array; everything else unchanged; the result is an in-memory store (standard order)
+SubsetGeo(g, views) == [g EXCEPT !.minView = 0, !.maxView = Len(views) - 1]
+SubsetOk(g, st, views, vals) ==
+  LET gs == SubsetGeo(g, views)
+      ls == StdLayout(gs) IN
+  /\ Len(views) >= 1 /\ \A i \in 1..Len(views) : ViewOk(g, views[i])
+  /\ Len(vals) = NumBins(gs)
+  /\ \A c \in Bins(gs) : vals[Pos(gs, ls, c) + 1] = st[<< Seg(c), Ax(c), views[View(c) + 1], Tang(c), Tof(c) >>]
+
+\* ------------------------------------------------------------------ BEYOND THE PROPERTY: one more index
+\* MultipleProjData / DynamicProjData: a sequence of stores (frames / gates); index k (1-based) maps to store k;
+\* fill_from / copy_to / size_all run over the stores in index order, each in its standard order.  C02's statement
+\* does not mention this index; a mismatch here is reported under C02 only where it makes a single store incoherent.
+RECURSIVE Concat(_)
+Concat(ss) == IF ss = << >> THEN << >> ELSE Head(ss) \o Concat(Tail(ss))
+Chunk(vals, k, n) == [i \in 1..n |-> vals[(k - 1) * n + i]]
+SplitFrames(vals, K, n) == [k \in 1..K |-> Chunk(vals, k, n)]
+ScaleFrames(fr, f) == [k \in 1..Len(fr) |-> [i \in 1..Len(fr[k]) |-> fr[k][i] * f]]
+DivFrames(fr, durs) == [k \in 1..Len(fr) |-> [i \in 1..Len(fr[k]) |-> fr[k][i] \div durs[k]]]
 =============================================================================
